@@ -5,6 +5,7 @@ package main
 // Entries (see coq/DispRegisters.v): reg_new, reg_access3, reg_access3r, reg_seq (reads and WithByteOrder).
 
 import (
+	"bytes"
 	"math"
 	"strings"
 	"sync"
@@ -742,12 +743,58 @@ func regSeqRun(vis, spare []byte, start uint16, dflt int, calls []regCall) V {
 		return L(refused)
 	}
 	shared := make([]V, len(calls))
+	// slices handed out by Register / DoubleRegister / QuadRegister are kept by the caller and looked
+	// at again after the rest of the sequence: a later read (or re-configuration) on the same object
+	// must not change a value that was already returned
+	type kept struct {
+		i    int
+		live []byte
+		was  []byte
+	}
+	var keep []kept
 	for i, c := range calls {
+		if c.code >= 21 && c.code <= 23 {
+			var live []byte
+			shared[i], live = regDoKeep(r, c)
+			if live != nil {
+				keep = append(keep, kept{i, live, append([]byte(nil), live...)})
+			}
+			continue
+		}
 		shared[i] = regDo(r, c)
+	}
+	for _, k := range keep {
+		if !bytes.Equal(k.live, k.was) {
+			shared[k.i] = vErr(I(99), B(k.was), B(k.live)) // returned slice changed afterwards
+		}
 	}
 	after := B(buf)
 	fresh := regFresh(vis, spare, start, dflt, calls)
 	return L(L(shared...), L(fresh...), after)
+}
+
+// regDoKeep: the three slice-returning accessors, with the returned slice itself (not a copy)
+func regDoKeep(r *packet.Registers, c regCall) (V, []byte) {
+	var live []byte
+	out := guard(func() V {
+		bo := packet.ByteOrder(uint8(c.p1))
+		var v []byte
+		var err error
+		switch c.code {
+		case 21:
+			v, err = r.Register(c.addr)
+		case 22:
+			v, err = r.DoubleRegister(c.addr, bo)
+		default:
+			v, err = r.QuadRegister(c.addr, bo)
+		}
+		if err != nil {
+			return regErr(v == nil)
+		}
+		live = v
+		return vOk(B(v))
+	})
+	return out, live
 }
 
 // regFresh: every element of the sequence on a fresh private copy of the payload: a new Registers
